@@ -40,7 +40,10 @@ struct World {
     bool static_mode = false;                   // --static 1: notes for the trace tie
     atomics::atomic<int> barrier;               // static mode: attach | traced operations | tear-down
     void fail( std::string const& s ) { if ( !failed ) { failed = true; failure = s; } }
-    Obj* make()
+    // `defer_id` (static mode): the object gets its id - the machine's allocation counter - when it is published
+    // (`name()` right after the exchange that links it, with no scheduling point in between), not when it is created
+    int next_id = 0;
+    Obj* make( bool defer_id = false )
     {
         // objects at odd addresses force HP's in-place scan onto the classic path (the low bit is its mark)
         char* b = new char[sizeof( Obj ) + 16];
@@ -48,16 +51,21 @@ struct World {
         uintptr_t a = ( uintptr_t( b ) + 7 ) & ~uintptr_t( 7 );
         bool make_odd = odd && ( objs.size() % 3 == 1 );
         Obj* o = reinterpret_cast<Obj*>( a + ( make_odd ? 1 : 0 ));
-        int id = int( objs.size()) + 1;
-        std::memcpy( &o->id, &id, sizeof id );
         int z = 0;
+        std::memcpy( &o->id, &z, sizeof z );
         std::memcpy( &o->disposed, &z, sizeof z ); std::memcpy( &o->retired, &z, sizeof z );
         objs.push_back( o );
+        if ( !defer_id ) name( o );
+        return o;
+    }
+    void name( Obj* o )
+    {
+        int id = ++next_id;
+        std::memcpy( &o->id, &id, sizeof id );
         char nm[16]; std::snprintf( nm, sizeof nm, "o%d", id );
         // named from the aligned base: the trace renders an odd address as `o<id>|1` (pointer values are printed
         // as <name of p & ~3>|<low bits>)
-        reg_name( reinterpret_cast<void*>( a ), sizeof( Obj ) + 1, nm );
-        return o;
+        reg_name( reinterpret_cast<void*>( uintptr_t( o ) & ~uintptr_t( 7 )), sizeof( Obj ) + 1, nm );
     }
     ~World() { for ( char* b : bufs ) delete[] b; }
 };
@@ -192,7 +200,7 @@ struct Fixture {
     std::set<Obj*> myretired[MAXT];
     bool attached[MAXT];
     bool static_ = false;           // --static 1
-    int nthreads = 0;
+    int nthreads = 0, nattached = 0;
     void* recptr[MAXT];
 
     size_t dhp_initial = 0;
@@ -290,8 +298,7 @@ struct Fixture {
         smr->attach(); attached[t] = true; smr->make_guards( t, nguards );
         recptr[t] = smr->my_record();
         if ( !smr->name_record( t )) W->fail( "static-mode: guard g is not hazard slot g" );
-        bool last = W->barrier.load() == nthreads - 1;
-        if ( last ) {
+        if ( ++nattached == nthreads ) {
             // every record exists: who owns the records, in the order a scan walks the list
             std::string s = "RECORDS";
             for ( void* rec : smr->scan_order()) {
@@ -346,12 +353,12 @@ struct Fixture {
                 // the machine's `deref` is only enabled on a guard that holds an object (-1: not executed); the use is a
                 // step of its own that observes the object's state
                 if ( !p ) return { -1L };
-                pre_op( nullptr );
+                pseudo_begin();
                 set_quiet( true );
                 int st = geti( &p->disposed ) ? 3 : smr->in_retired( p ) ? 2 : 1;
                 set_quiet( false );
                 static char const* const names[] = { "", "live", "retired", "disposed" };
-                ev_note( "A use o" + std::to_string( geti( &p->id )) + ' ' + names[st] );
+                pseudo_end( "use", "o" + std::to_string( geti( &p->id )), names[st] );
                 if ( st == 3 ) W->fail( "deref-of-disposed obj=" + std::to_string( geti( &p->id )));
                 return { long( st ) };
             }
@@ -359,8 +366,9 @@ struct Fixture {
             return { p ? long( geti( &p->id )) : 0L };
         }
         if ( op.name == "swap" || op.name == "take" ) {
-            Obj* n = op.name == "swap" ? W->make() : nullptr;
+            Obj* n = op.name == "swap" ? W->make( static_ ) : nullptr;
             Obj* old = W->cells[int( op.args[0] )].exchange( n );
+            if ( static_ && n ) W->name( n );
             if ( old ) {                                     // unlinked: now, and only now, it may be retired
                 seti( &old->retired, 1 );
                 myretired[t].insert( old );
